@@ -1,7 +1,11 @@
 (* C03 runner: the reference interpreter on encoded requests.
    output: [0; n; c1..cn] rendered text | [1; code] error | [8] out of gas | [9] undecodable *)
 From Coq Require Import String.
-From MJ Require Import Common.Base Lang.Syntax Lang.Meta Lang.Interp Lang.Codec C04.Model L2.Instr L2.Compile L2.Vm.
+From MJ Require Import Common.Base Lang.Syntax Lang.Meta Lang.Interp Lang.Codec.
+From MJ Require Import C04.Model.
+From MJ Require Import L2.Instr.
+From MJ Require Import L2.Compile.
+From MJ Require Import L2.Vm.
 
 Definition FUEL := 400%nat.
 
